@@ -47,3 +47,16 @@ Proof. exact pulled_accounted. Qed.
 (* the boxed form has the same outcome, polls and drops *)
 Theorem C07_boxed_same : forall N s, try_boxed_from_iter N s = try_from_iter N s.
 Proof. reflexivity. Qed.
+
+(* ---- tie to the current source: regenerated on every run by tools/ga2coq (coq/gen) ---- *)
+From Coq Require Import String.
+From GA Require Import Guards GuardTie.
+From GAGen Require Import GenGuards GenConstFns.
+Local Open Scope Z_scope.
+
+(* the two size-hint pre-checks of try_from_iter as they stand in src/lib.rs now are the
+   model's precheck_reject *)
+Theorem C07_source_prechecks : forall N (s : Builder.src),
+  Builder.precheck_reject N s =
+  precheck_of try_from_iter_prechecks (Builder.hint_lo s) (Builder.hint_hi s) (Z.of_nat N).
+Proof. exact tie_prechecks. Qed.
